@@ -193,8 +193,10 @@ def jobs(tier):
         con, inner_m, has_action = spec(act, ctl, a, m, tr)
         stubs = [(r'^bool vf::R<\d+>::match<', rule_stub_h(a, inner_m))]
         for k in ('start', 'success', 'failure', 'unwind'):
+            if ctl == 'normal' or (k == 'unwind' and ctl != 'ctl'):
+                continue
             stubs.append((r'vf::ctl(nu)?<vf::R<0> >::%s<' % k, hook_stub(k)))
-        if act != 'nothing':
+        if has_action:
             stubs.append((r'^((void|bool) )?vf::%s<vf::R<0> >::apply0?(<|\()' % act, apply_stub(act, tr)))
         j = Job(rname(act, ctl, a, m, tr), 'match_e' if tr == 'eager' else 'match_l', rname(act, ctl, a, m, tr), con, ('C04', 'C08', 'C02'),
                 stubs=stubs, prelude=match_prelude(tr),
